@@ -50,7 +50,11 @@ pub fn handle_xadd(storage: &Arc<StorageEngine>, db: usize, parts: &[RespFrame])
         storage.xadd(db, key, fields)?
     } else {
         // Parse specific ID using optimized parsing
-        let id_str = unsafe { std::str::from_utf8_unchecked(id_bytes) };
+        // The ID is client input and need not be UTF-8
+        let id_str = match std::str::from_utf8(id_bytes) {
+            Ok(s) => s,
+            Err(_) => return Ok(RespFrame::error("ERR Invalid stream ID specified as stream command argument")),
+        };
         
         let id = match StreamId::from_string(id_str) {
             Some(id) => id,
